@@ -86,7 +86,9 @@ def not_types(*labels):
 # ---------------------------------------------------------------- contracts
 class Case:
     def __init__(self, name, when=None, returns=None, raises=None, post=None, effects=None,
-                 may_raise=None, havoc=None, need_cover=True):
+                 may_raise=None, havoc=None, need_cover=True, garbles=False):
+        self.garbles = garbles      # taking this clause at a call site means "the input was not grammar-valid":
+        #                             from then on callees are summarised by their weakest clause (over-approximation)
         self.need_cover = need_cover  # must some path reach this case (vacuity guard)?
         self.may_raise = may_raise  # exception classes the function may raise instead of returning (relational cases)
         self.havoc = havoc          # ctx -> fresh result value satisfying `post` (used at call sites for relational cases)
@@ -120,7 +122,11 @@ class Ctx:
 class Contract:
     def __init__(self, target, params, cases, requires=None, reads=(), modifies=(), inline=(),
                  loops=None, selector=None, name=None, pure=True, setup=None, trusted=False, doc='',
-                 bounded=True, complete=False):
+                 bounded=True, complete=False, view=None, views=None, check_cases=None, fallback=None):
+        self.fallback = fallback        # weakest clause (subsumes all others): used once the path is 'garbled'
+        self.view = view                # name of this view of the function (None = the default one callers see)
+        self.views = views or {}        # while verifying this contract: callee qualified name -> view to use
+        self.check_cases = check_cases  # verify only these clauses here (the others are verified on another instance set)
         self.complete = complete        # cases are exhaustive by construction (g / not g): skip that obligation
         self.target = target            # 'pamqp.encode.short_uint' or 'pamqp.base.Frame.marshal'
         self.params = params            # [(name, TSpec)]
@@ -154,14 +160,19 @@ class Contract:
         if self.requires is not None:
             req = self.requires(ctx)
             st.oblige('%s#requires@callsite' % self.name, req)
-        guards = []
-        for c in self.cases:
-            guards.append(True if c.when is None else c.when(ctx))
         chosen = None
-        for c, g in zip(self.cases, guards):
-            if g is True or (not isinstance(g, bool) and st.branch(g, 'contract:%s:%s' % (self.name, c.name))):
-                chosen = c
-                break
+        if getattr(st, 'garbled', False) and self.fallback is not None:
+            chosen = self.fallback
+        else:
+            for c in self.cases:
+                g = True if c.when is None else c.when(ctx)
+                if isinstance(g, SBool):
+                    g = g.t
+                if g is True or (not isinstance(g, bool) and st.branch(g, 'contract:%s:%s' % (self.name, c.name))):
+                    chosen = c
+                    break
+        if chosen is not None and chosen.garbles:
+            st.garbled = True
         if chosen is None:
             # no case applies: the caller failed to establish the (implicit) precondition
             st.oblige('%s#some-case-applies@callsite' % self.name, False)
@@ -243,8 +254,17 @@ class Registry:
         self.by_fn.setdefault(c.fn(), []).append(c)
         return c
 
-    def lookup(self, fn, args):
+    def lookup(self, fn, args, views=None):
+        want = None
+        if views:
+            from .interp import qualname
+            try:
+                want = views.get(qualname(fn))
+            except AttributeError:
+                want = None
         for c in self.by_fn.get(fn, ()):
+            if c.view != want:
+                continue
             if c.selector is None or c.selector(fn, args):
                 return c
         return None
@@ -457,7 +477,7 @@ class Verifier:
             self.verify_instance(c, label, combo, results, stats)
         # cover: every case reachable (vacuity guard)
         for case in c.cases:
-            if not case.need_cover:
+            if not case.need_cover or (c.check_cases is not None and case.name not in c.check_cases):
                 continue
             hit = case.name in stats['cases_hit']
             results.append(Result('%s#cover:%s' % (c.name, case.name), 'proved' if hit else 'undecided',
@@ -477,7 +497,8 @@ class Verifier:
         if c.setup is not None:
             c.setup(ctx)
         if c.requires is not None:
-            st.assume(B(c.requires(ctx)) if not isinstance(c.requires(ctx), bool) else c.requires(ctx))
+            rq = c.requires(ctx)
+            st.assume(B(rq) if not isinstance(rq, bool) else rq)
         return ctx
 
     def verify_instance(self, c, label, combo, results, stats):
@@ -504,7 +525,7 @@ class Verifier:
                                       kind='engine'))
                 break
             st = State(prefix, self.timeout_ms)
-            ip = Interp(st, self.registry, inline=c.inline, top=(fn,), loops=c.loops)
+            ip = Interp(st, self.registry, inline=c.inline, top=(fn,), loops=c.loops, views=c.views)
             pname = '%s@p%d' % (base, npath)
             outcome = None
             try:
@@ -546,14 +567,23 @@ class Verifier:
             explore(st, exhaustive)
         # (2) each applicable case's outcome
         for k in c.cases:
+            if c.check_cases is not None and k.name not in c.check_cases:
+                continue
             if outcome[0] == 'raise':
                 allowed = k.raises if k.raises is not None else k.may_raise
                 if allowed and issubclass(outcome[1], allowed if isinstance(allowed, tuple) else (allowed,)):
                     # whatever the guard says, this outcome satisfies the clause
                     results.append(Result('%s#%s' % (pname, k.name), 'proved', 0.0, 'syntactic',
                                           detail='raised class allowed by this clause', kind='post'))
-                    if k.when is None or k.may_raise:
+                    if k.when is None:
                         stats['cases_hit'].add(k.name)
+                    elif k.name not in stats['cases_hit']:
+                        def cover(k=k):           # reachability of the clause (vacuity guard), once
+                            g = k.when(ctx)
+                            g = g.t if isinstance(g, SBool) else g
+                            if g is True or (g is not False and st.can(B(g))):
+                                stats['cases_hit'].add(k.name)
+                        explore(st, cover)
                     continue
 
             def one(k=k):
